@@ -129,8 +129,11 @@ def _work(job):
     # small portfolio over random seeds: quantifier instantiation order makes single runs unstable
     # (the same query is `unsat` in 0.1 s under most seeds and times out under a few)
     budget = timeout_ms if not second else max(1500, timeout_ms // 2)
-    plan = [(0, max(500, budget // 6)), (1, max(500, budget // 6)), (2, max(500, budget // 3)), (3, max(500, budget // 3))] \
-        if expect == "unsat" else [(0, budget)]
+    # two rounds over six seeds: short budgets first (an obligation that some seed decides in 0.2 s is decided here even on a
+    # machine five times slower), then longer ones; an audit of all obligations under seeds 0-3 found 33 of ~7300 that some
+    # seed leaves open for 8 s while another decides them at once
+    short, longer = max(400, budget // 5), max(1500, (budget * 4) // 5)
+    plan = ([(sd, short) for sd in range(6)] + [(sd, longer) for sd in range(6)]) if expect == "unsat" else [(0, budget)]
     reason = None
     for seed, tmo in plan:
         try:
@@ -163,10 +166,10 @@ def _work(job):
 
 
 def _work_slow(job):
-    """The query once more, two seeds, 40 s each (see par.discharge)."""
+    """The query once more, four seeds, 40 s each (see par.discharge)."""
     idx, smt2, _timeout_ms, _expect, _second = job
     res = dict(idx=idx, verdict="unknown", backend=None, seconds=0.0, model=None, tried=[], reason=None)
-    for seed in (0, 1):
+    for seed in (0, 1, 2, 3):
         try:
             r, dt, model, reason = _run_z3_api(smt2, 40000, seed)
         except Exception as exc:
